@@ -46,6 +46,7 @@ func runC09(c *Ctx) {
 	if p == nil {
 		return
 	}
+	c09EnvPreserves(c, p)
 	c.Explain = "E3: the type graph env.loadEnvInternal walks (Conf; Path behind OptionalPath.UnmarshalEnv → env.Load(prefix, Values), Values being the pointer-ised copy of Path) - rule env_loadable per position; " +
 		"E7: env_reaches_json per UnmarshalEnv (every non-empty-value return is the result of (*T).UnmarshalJSON(recv, …) / jsonwrapper.Unmarshal(…, recv) / env.Load(prefix, recv.Values)); json_validation_not_bypassed per struct type that is filled field by field although it has a custom UnmarshalJSON; " +
 		"E1: load_order on conf.Load (loadFromFile ≺ env.Load(\"RTSP\") ≺ env.Load(\"MTX\") ≺ Validate on the same *Conf, success return passes the nil test of each); tags (options ⊆ {omitempty}, non-empty names, distinct upper-case keys per struct); loader_mirror (the identities/kinds tested by env.loadEnvInternal are the ones the walk assumes). " +
